@@ -342,7 +342,13 @@ func (w *world) persisted() (map[string]uint64, bool) {
 			return nil, false
 		}
 		for n, val := range v.dec.Counts {
-			out[n] += val
+			// Sums over several files saturate (the saturation family reaches
+			// 2^64-1 in one file and adds more in the next week's file).
+			if sum, carry := bits.Add64(out[n], val, 0); carry != 0 {
+				out[n] = ^uint64(0)
+			} else {
+				out[n] = sum
+			}
 		}
 	}
 	return out, true
@@ -506,6 +512,10 @@ func (w *world) begin(name string, n uint64) {
 
 // exceeds reports whether a+b > the 128-bit total begun for name.
 func (w *world) exceeds(name string, a, b uint64) bool {
+	if a == ^uint64(0) {
+		// persisted sum saturated: only claimable if at least that much was begun
+		return w.begunHi[name] == 0 && w.begun[name] != ^uint64(0)
+	}
 	lo, carry := bits.Add64(a, b, 0)
 	hi := w.begunHi[name]
 	if carry != hi {
